@@ -235,10 +235,14 @@ def parse_out(ln):
     if t[0] == "APANIC":
         return ("APANIC",)
     if t[0] == "EPANIC":
-        return ("EPANIC", int(t[1]))
+        return ("EPANIC", int(t[1]), t[2] if len(t) > 2 else "?", " ".join(t[3:]))
     if t[0] != "OK":
         return ("PANIC", ln)
     return {"nerr": int(t[1]), "sv": unhx(t[2]).decode("utf8"), "map": unhx(t[3]).decode("utf8")}
+
+
+def map_side_panic(loc):
+    return any(x in loc for x in ("crates/sourcemap/", "crates/pretty/", "/sourcemap-", "veryl-sourcemap", "veryl-pretty"))
 
 
 def corpus_texts():
@@ -338,8 +342,8 @@ def run(tier, seed, replay):
             print("replay: %d entries, analyzer errors %d" % (len(ents), r["nerr"]))
             for k, w in bad:
                 res.violation(k, w, rp)
-        elif r[0] == "EPANIC" and r[1] == 0:
-            res.violation("emit-panic", "the emitter panicked on a design without analyzer errors", rp)
+        elif r[0] == "EPANIC" and map_side_panic(r[2]):
+            res.violation("map-build-panic", "building the source map panicked at %s: %s" % (r[2], r[3][:120]), rp)
         return res.finish()
 
     rng = random.Random(seed * 7919 + 13)
@@ -356,10 +360,16 @@ def run(tier, seed, replay):
                 n_err += 1
             elif r[0] == "APANIC":
                 res.count("analyzer_panics_outside_this_property")
+            elif r[0] == "EPANIC" and map_side_panic(r[2]):
+                # a crash while rendering / recording anchors / building the map belongs to this property
+                (fails if r[1] == 0 else extra_fails).append((i, "map-build-panic", "building the source map of %s panicked at %s: %s" % (label, r[2], r[3][:120])))
             elif r[0] == "EPANIC" and r[1] > 0:
                 res.count("emitter_panics_on_designs_with_analyzer_errors")
             elif r[0] == "EPANIC":
-                fails.append((i, "emit-panic", "the emitter panicked on %s, a design without analyzer errors" % label))
+                # a crash in the emitter's own logic is property C11's subject, not this one's
+                res.count("emitter_panics_on_building_designs_(property_C11)")
+                if not any("emitter panic" in n for n in res.notes):
+                    res.notes.append("emitter panic on a design without analyzer errors (outside C13, see C11): %s opts=%s at %s: %s" % (label, list(opts), r[2], r[3][:100]))
             else:
                 fails.append((i, "emit-panic", "harness crashed on %s: %s" % (label, r[1][:200])))
             continue
@@ -410,7 +420,7 @@ def run(tier, seed, replay):
             res.violation(k, w, {})
             continue
         small = text
-        if k != "emit-panic":
+        if k != "map-build-panic":
             try:
                 small = shrink_text(binary, opts, text, k, lx)
             except Exception:
